@@ -75,6 +75,23 @@ func (e *Exec) VerifyFunc(fn *ssa.Function, ct *Contract, setup func(st *State, 
 			if ct.Pure {
 				e.assertPureFrame(name, fn, st, entry, water0)
 			}
+			// vacuity guard: some returning path is feasible (quantified facts dropped)
+			cn := name + "/cover:returns"
+			co := e.oblIdx[cn]
+			if co == nil {
+				co = &Obligation{Name: cn, Kind: "cover", Expect: "sat", Func: fn.String(), Meta: map[string]string{}}
+				e.oblIdx[cn] = co
+				e.obls = append(e.obls, co)
+			}
+			if len(co.VCs) < 6 {
+				as := []*Term{True}
+				for _, p := range st.pc {
+					if p.Op != "forall" && p.Op != "exists" {
+						as = append(as, p)
+					}
+				}
+				co.VCs = append(co.VCs, &VC{Asserts: as, Seq: nextVCSeq()})
+			}
 			if e.RetHook != nil {
 				e.RetHook(e, st, nil, res)
 			}
